@@ -136,6 +136,7 @@ type vncRun struct {
 	lastObs    []byte
 	prevConn   []int
 	prevCaught []bool
+	nConnEv    []int
 	stopS      chan struct{}
 	doneS      chan struct{}
 }
@@ -179,6 +180,7 @@ func (r *vncRun) eventsLocked(o vncObs) {
 	if r.prevConn == nil {
 		r.prevConn = make([]int, len(r.nodes))
 		r.prevCaught = make([]bool, len(r.nodes))
+		r.nConnEv = make([]int, len(r.nodes))
 	}
 	for i := range r.nodes {
 		c := 0
@@ -191,7 +193,12 @@ func (r *vncRun) eventsLocked(o vncObs) {
 				op = "Disc"
 			}
 			r.prevConn[i] = c
-			r.emitLocked(vncAct{Op: op, Res: "ok", P: i + 1}, o)
+			// a peer the client keeps kicking reconnects every 150 ms:
+			// the first few changes tell the story
+			r.nConnEv[i]++
+			if r.nConnEv[i] <= 8 {
+				r.emitLocked(vncAct{Op: op, Res: "ok", P: i + 1}, o)
+			}
 		}
 		if r.nodes[i].Branch() != 0 {
 			want := r.validTip(i)
@@ -352,6 +359,10 @@ func vncWhy(o *vncObs, tip vnRef) string {
 	}
 	if len(banned) > 0 {
 		p = append(p, "banned="+strings.Join(banned, "+"))
+	}
+	if len(o.FTip) == 3 && len(o.HTip) == 2 && o.FTip[2] >= 0 && o.HTip[1] > o.FTip[2] {
+		// how far the filter headers are behind the block headers
+		p = append(p, fmt.Sprintf("gap=%d", o.HTip[1]-o.FTip[2]))
 	}
 	return strings.Join(p, ",")
 }
